@@ -14,6 +14,8 @@ R6 without a handler every granted retry sleeps
 """
 from __future__ import annotations
 
+import random
+
 from .. import gen as G
 from ..facts import V, analyze, delivered_stop_reason, entry_name, feq
 from . import common
@@ -32,7 +34,14 @@ BUDGETS = {"quick": (60000, 90), "thorough": (2800000, 285)}
 
 
 def gen(seed, tier="quick"):
-    return G.gen_retry(seed, KNOBS)
+    scn = G.gen_retry(seed, KNOBS)
+    r = random.Random(seed ^ 0xC16)
+    if r.random() < 0.3:
+        # a slow (blocking) sleep handler: the deadline may pass while it thinks; its answer still decides
+        D = scn["cfg"]["deadline_us"]
+        for c in scn["calls"]:
+            c["handler_dur"] = [r.choice([0, 1000, 500_000, D, D + 1, 2 * D + 1_000_000]) for _ in range(r.randint(1, 3))]
+    return scn
 
 
 def _expected_which(place):
